@@ -34,8 +34,10 @@ LEVEL_NOTE = (
 )
 RULE = (
     "cases = generated Boolean problems (<= 6 ground fluents, conditional / forall effects, negative / disjunctive / quantified "
-    "/ equality conditions, <= 1 effect per ground fluent per ground action; 25% directed corridor shapes) x a set of 1..4 "
-    "possible initial states (explicit UPStates, or ContingentProblem oneof / or / unknown constraints). evaluations = "
+    "/ equality conditions, <= 1 effect per ground fluent per ground action; 20% directed corridor shapes; 25% chains of "
+    "conditional effects of depth 2-3 with mixed polarities and goals over the end of the chain) x a set of 1..4 "
+    "possible initial states (explicit UPStates - for chains two states differing in one early-chain atom, in either listing "
+    "order - or ContingentProblem oneof / or / unknown constraints, oneof / or groups over positive and negative literals). evaluations = "
     "compiled plans judged for soundness + completeness verdicts. distinct_nontrivial = distinct (problem, state set) with "
     ">= 2 distinct states where the shortest plan of some single state is not a conformant plan."
 )
@@ -53,7 +55,7 @@ BOUNDS = {
 
 def plan(tier, seed):
     b = BOUNDS[tier]
-    return simple_plan(PROPERTY, tier, seed, b["n"], b["n"], shards_quick=16, shards_thorough=16)
+    return simple_plan(PROPERTY, tier, seed, b["n"], b["n"], shards_quick=8, shards_thorough=16)
 
 
 def run_shard(spec, res):
@@ -483,6 +485,13 @@ def thresholds(m):
         ("feature:forall-effect", 5),
         ("feature:disjunction", 10),
         ("feature:negation", 10),
+        ("feature:directed-chain", 40),
+        ("feature:chain-depth:2", 15),
+        ("feature:chain-depth:3", 8),
+        ("feature:first-state-has-early-atom-true", 8),
+        ("feature:first-state-has-early-atom-false", 8),
+        ("feature:oneof-negative-literal", 8),
+        ("feature:or-negative-literal", 5),
     ]
     for k, n in req:
         if c.get(k, 0) < n:
